@@ -28,10 +28,10 @@ func init() {
 var reKindAtom = regexp.MustCompile(`^Kind\(attr\.Value\) == (\d+)$`)
 
 func checkC18(c *Ctx) {
-	c.Rule("R18.1", "kind table: accessor ↔ kind ↔ constructor type; fallback; empty-Attr first", 9)
+	c.Rule("R18.1", "kind table: accessor ↔ kind ↔ constructor type; fallback; empty-Attr first", 4)
 	c.Rule("R18.2", "level map: descending thresholds with non-increasing zap levels; shared by Enabled and Handle", 2)
 	c.Rule("R18.3", "slog.Handler contract clauses: empty group name, empty group attribute, inline group", 2)
-	c.Rule("R18.4", "Handle and WithAttrs agree on the emission of pending groups", 4)
+	c.Rule("R18.4", "Handle and WithAttrs agree on the emission of pending groups", 3)
 	c.Rule("R18.5", "WithAttrs/WithGroup are pure derivations", 3)
 	c.Rule("R18.6", "a record is handled iff Core.Check accepts the mapped level", 2)
 
@@ -47,101 +47,233 @@ func checkC18(c *Ctx) {
 		v, _ := ConstObjInt(k)
 		kinds[v] = k.Name()
 	}
-	accessor := map[string]string{"KindGroup": "Group", "KindLogValuer": "Resolve"}
+	// Path exploration of convertAttrToField with the attribute's kind fixed to each slog.Kind constant in turn (and
+	// to one value that is no constant): which tests are made, and what is returned after each combination.
 	explicit := map[string]bool{}
-	hasDefault := false
-	skipFirst := false
-	for k, r := range Returns(conv) {
-		v := Strip(RetVals(r)[0])
-		call, _ := v.(*ssa.Call)
-		atoms := AtomStrings(Guards(r))
-		var kind string
-		isDefault := true
-		notEmpty := false
-		for _, a := range atoms {
-			if m := reKindAtom.FindStringSubmatch(a); m != nil {
-				n, _ := parseInt(m[1])
-				kind = kinds[n]
-				isDefault = false
+	an := conv.Params[0].Name()
+	kindVals := []int64{}
+	for k := range kinds {
+		kindVals = append(kindVals, k)
+	}
+	sort.Slice(kindVals, func(i, j int) bool { return kindVals[i] < kindVals[j] })
+	kindVals = append(kindVals, 9999)
+	anyCall := map[string]*ssa.Call{}
+	argDescs := map[string][]string{}
+	traceCall := func(st *ConcState, v ssa.Value) *ssa.Call {
+		v = Strip(v)
+		for k := 0; k < 12; k++ {
+			if nx := st.Step(v); nx != nil {
+				v = Strip(nx)
+				continue
 			}
-			if a == "!Equal(attr, {})" || strings.HasPrefix(a, "!Equal(attr,") {
-				notEmpty = true
-			}
+			cl, _ := v.(*ssa.Call)
+			return cl
 		}
-		if !notEmpty {
-			// the empty-attr arm
-			ok := call != nil && IsCallTo(call, "go.uber.org/zap.Skip") && len(atoms) == 1 && strings.HasPrefix(atoms[0], "Equal(attr,")
-			c.Check(ok, "R18.1", name, "empty-attr-skipped", r.Pos(), "an empty Attr is converted to Skip before anything else (guards %v)", atoms)
-			skipFirst = ok
-			continue
-		}
-		if call == nil {
-			c.Bad("R18.1", name, "return#"+itoa(k+1), r.Pos(), "unexpected return %s", Desc(v))
-			continue
-		}
-		callee := CalleeFunc(call)
-		if isDefault {
-			hasDefault = true
-			d := Desc(call)
-			c.Check(d == "Any(attr.Key, Any(attr.Value))", "R18.1", name, "fallback", r.Pos(), "kinds without an explicit arm go to zap.Any(attr.Key, attr.Value.Any()) (%s)", d)
-			continue
-		}
-		explicit[kind] = true
-		switch kind {
-		case "KindGroup":
-			// handled by R18.3, but accessor must still be Group
-			okA := true
-			for _, a := range Args(call) {
-				d := Desc(a)
-				if strings.Contains(d, "(attr.Value)") && !strings.Contains(d, "Group(attr.Value)") {
-					okA = false
+		return nil
+	}
+	var badEmpty, badGroup, badArm, badFallback, badOther []string
+	nPaths := 0
+	for _, K := range kindVals {
+		kv := K
+		kname := kinds[kv]
+		seqs, trunc := ConcPaths(conv, ConcCfg{
+			Conc: func(d string) (int64, bool) {
+				if d == "Kind("+an+".Value)" {
+					return kv, true
 				}
-			}
-			c.Check(okA, "R18.1", name, "arm/"+kind+"#"+itoa(k+1), r.Pos(), "the group arm reads the value with Group()")
-		case "KindLogValuer":
-			d := Desc(call)
-			// convertAttrToField(Attr{Key: attr.Key, Value: attr.Value.Resolve()})
-			ok := IsCallTo(call, SlogPath+".convertAttrToField")
-			keyOK, valOK := false, false
-			AllInstrs(conv, func(i ssa.Instruction) {
-				if st, isSt := i.(*ssa.Store); isSt && st.Block() == r.Block() {
-					switch Desc(st.Addr) {
-					case "complit.Key":
-						keyOK = Desc(st.Val) == "attr.Key"
-					case "complit.Value":
-						valOK = Desc(st.Val) == "Resolve(attr.Value)"
+				return 0, false
+			},
+			Event: func(in ssa.Instruction, st *ConcState) string {
+				r, ok := in.(*ssa.Return)
+				if !ok {
+					return ""
+				}
+				cl := traceCall(st, r.Results[0])
+				if cl == nil {
+					return "ret ?" + st.Desc(r.Results[0])
+				}
+				f := CalleeFunc(cl)
+				d := "?"
+				if f != nil {
+					d = f.FullName()
+				}
+				var ad []string
+				for _, a := range Args(cl) {
+					ad = append(ad, st.Desc(a))
+				}
+				key := d + "(" + strings.Join(ad, " , ") + ")"
+				anyCall[key] = cl
+				argDescs[key] = ad
+				return "ret " + key
+			},
+			Branch: func(cond ssa.Value, taken bool, st *ConcState) string {
+				pol := taken
+				for k := 0; k < 8; k++ {
+					if u, ok := cond.(*ssa.UnOp); ok && u.Op == token.NOT {
+						cond, pol = u.X, !pol
+						continue
+					}
+					if nx := st.Step(cond); nx != nil {
+						cond = nx
+						continue
+					}
+					break
+				}
+				tf := func(n string, v bool) string {
+					if v {
+						return n + "=T"
+					}
+					return n + "=F"
+				}
+				switch x := cond.(type) {
+				case *ssa.Call:
+					d := st.Desc(x)
+					switch {
+					case strings.HasPrefix(d, "Equal("+an+", "):
+						return tf("empty", pol)
+					case strings.HasPrefix(d, "Equal("+an+".Value, "):
+						return tf("zero", pol)
+					}
+				case *ssa.BinOp:
+					l, r, op := st.Desc(x.X), st.Desc(x.Y), x.Op
+					if r == an+".Key" || r == "len(Group("+an+".Value))" {
+						l, r, op = r, l, swapOp(op)
+					}
+					switch {
+					case l == an+".Key" && r == `""` && (op == token.EQL || op == token.NEQ):
+						return tf("nokey", pol == (op == token.EQL))
+					case l == "len("+an+".Key)" && r == "0" && (op == token.EQL || op == token.NEQ || op == token.GTR):
+						return tf("nokey", pol == (op == token.EQL))
+					case l == "len(Group("+an+".Value))" && r == "0":
+						switch op {
+						case token.EQL, token.LEQ:
+							return tf("nogroup", pol)
+						case token.NEQ, token.GTR:
+							return tf("nogroup", !pol)
+						}
 					}
 				}
-			})
-			c.Check(ok && keyOK && valOK, "R18.1", name, "arm/"+kind, r.Pos(), "a LogValuer is resolved and converted again under the same key (%s)", d)
-		default:
-			want := strings.TrimPrefix(kind, "Kind")
-			if a, ok := accessor[kind]; ok {
-				want = a
-			}
-			args := Args(call)
-			ok := callee != nil && callee.Pkg() != nil && callee.Pkg().Path() == ZapPath && len(args) == 2 && Desc(args[0]) == "attr.Key"
-			accOK, typOK := false, false
-			if ok {
-				if ac, isCall := Strip(args[1]).(*ssa.Call); isCall {
-					af := CalleeFunc(ac)
-					accOK = af != nil && af.Name() == want && af.FullName() == "(log/slog.Value)."+want && Desc(Args(ac)[0]) == "attr.Value"
-					sig := callee.Type().(*types.Signature)
-					typOK = types.Identical(sig.Params().At(1).Type(), ac.Type())
+				return "cond(" + st.Desc(cond) + ")"
+			},
+		})
+		if trunc || len(seqs) == 0 {
+			c.Und("R18.1", name, "paths@kind="+itoa(int(kv)), conv.Pos(), "path exploration incomplete (%d, truncated=%v)", len(seqs), trunc)
+			return
+		}
+		for _, sq := range seqs {
+			ev := strings.Split(sq, " ; ")
+			facts := map[string]bool{}
+			infeasible := false
+			ret := ""
+			for _, e := range ev {
+				switch {
+				case strings.HasPrefix(e, "ret "):
+					ret = strings.TrimPrefix(e, "ret ")
+				case strings.HasPrefix(e, "cond("):
+					badOther = append(badOther, "kind "+kname+": "+sq)
+				default:
+					nm := e[:len(e)-2]
+					opp := nm + "=F"
+					if e[len(e)-1] == 'F' {
+						opp = nm + "=T"
+					}
+					if facts[opp] {
+						infeasible = true
+					}
+					facts[e] = true
 				}
 			}
-			c.Check(ok && accOK && typOK, "R18.1", name, "arm/"+kind, r.Pos(), "arm %s reads Value.%s() (a different accessor panics in slog) and builds zap.%s of exactly that type under attr.Key (accessor ok=%v, type ok=%v)", kind, want, calleeName(callee), accOK, typOK)
+			if infeasible {
+				continue
+			}
+			nPaths++
+			tag := "kind " + kname + "(" + itoa(int(kv)) + "): " + sq
+			call := anyCall[ret]
+			ad := argDescs[ret]
+			isTo := func(full string) bool { return call != nil && IsCallTo(call, full) }
+			empty := facts["empty=T"] || facts["nokey=T"] && facts["zero=T"]
+			nonEmpty := facts["empty=F"] || facts["nokey=F"] || facts["zero=F"]
+			switch {
+			case empty:
+				if !isTo("go.uber.org/zap.Skip") {
+					badEmpty = append(badEmpty, tag)
+				}
+			case kname == "KindGroup":
+				explicit[kname] = true
+				grp := func(d string) bool {
+					return d == "groupObject(Group("+an+".Value))" || strings.HasSuffix(d, "Group("+an+".Value))") || strings.HasSuffix(d, "Group("+an+".Value)")
+				}
+				switch {
+				case facts["nogroup=T"]:
+					if !isTo("go.uber.org/zap.Skip") {
+						badGroup = append(badGroup, "empty group not skipped: "+tag)
+					}
+				case !facts["nogroup=F"]:
+					badGroup = append(badGroup, "a group is converted without testing whether it has attributes: "+tag)
+				case facts["nokey=T"]:
+					if !(isTo("go.uber.org/zap.Inline") && grp(ad[0])) {
+						badGroup = append(badGroup, "group with empty key not inlined: "+tag)
+					}
+				case facts["nokey=F"]:
+					if !(isTo("go.uber.org/zap.Object") && ad[0] == an+".Key" && grp(ad[1])) {
+						badGroup = append(badGroup, "named group not converted to Object(key, group): "+tag)
+					}
+				default:
+					badGroup = append(badGroup, "a group is converted without testing its key: "+tag)
+				}
+			case kname == "KindLogValuer":
+				explicit[kname] = true
+				ok := isTo(SlogPath + ".convertAttrToField")
+				if ok {
+					flds := structValueFields(Args(call)[0])
+					ok = flds["Key"] == an+".Key" && flds["Value"] == "Resolve("+an+".Value)"
+				}
+				if !ok {
+					badArm = append(badArm, "a LogValuer must be resolved and converted again under the same key: "+tag)
+				}
+			case kname == "" || kname == "KindAny" || isTo("go.uber.org/zap.Any"):
+				// fallback
+				ok := isTo("go.uber.org/zap.Any") && len(ad) == 2 && ad[0] == an+".Key" && ad[1] == "Any("+an+".Value)"
+				if kname == "KindAny" && !nonEmpty {
+					ok = false // the zero Attr has kind Any: it must have been excluded
+				}
+				if !ok {
+					badFallback = append(badFallback, tag)
+				}
+			default:
+				explicit[kname] = true
+				want := strings.TrimPrefix(kname, "Kind")
+				callee := CalleeFunc(call)
+				ok := call != nil && callee != nil && callee.Pkg() != nil && callee.Pkg().Path() == ZapPath && len(ad) == 2 && ad[0] == an+".Key" && ad[1] == want+"("+an+".Value)"
+				if ok {
+					ok = false
+					if ac, isCall := Strip(Args(call)[1]).(*ssa.Call); isCall {
+						af := CalleeFunc(ac)
+						accOK := af != nil && af.FullName() == "(log/slog.Value)."+want
+						sig := callee.Type().(*types.Signature)
+						ok = accOK && types.Identical(sig.Params().At(1).Type(), ac.Type())
+					}
+				}
+				if !ok {
+					badArm = append(badArm, "arm must read Value."+want+"() (any other accessor panics in slog) and build the zap constructor of exactly that type under the attribute's key: "+tag)
+				}
+			}
 		}
 	}
-	c.Check(skipFirst, "R18.1", name, "empty-attr-first", conv.Pos(), "the empty-Attr test dominates every other arm")
+	lim := func(l []string) []string {
+		if len(l) > 3 {
+			return append(l[:3:3], "… "+itoa(len(l)-3)+" more")
+		}
+		return l
+	}
+	c.Check(len(badEmpty) == 0, "R18.1", name, "empty-attr-skipped", conv.Pos(), "over %d feasible paths (kind fixed to each of the %d slog.Kind constants and one other value): whenever the tests made establish that the Attr is empty, Skip is returned: %v", nPaths, len(kinds), lim(badEmpty))
+	c.Check(len(badArm) == 0, "R18.1", name, "arms", conv.Pos(), "every scalar kind is read with its own accessor and passed to the zap constructor of exactly that type under attr.Key; a LogValuer is resolved and converted again under the same key: %v", lim(badArm))
+	c.Check(len(badFallback) == 0, "R18.1", name, "fallback", conv.Pos(), "kinds without an explicit arm go to zap.Any(attr.Key, attr.Value.Any()), and only after the empty Attr (whose kind is Any) was excluded: %v", lim(badFallback))
+	c.Check(len(badOther) == 0, "R18.1", name, "no-other-condition", conv.Pos(), "the conversion depends only on the kind, the emptiness tests and the group tests: %v", lim(badOther))
 	var missing []string
-	for _, kn := range kinds {
-		if !explicit[kn] && !hasDefault {
-			missing = append(missing, kn)
-		}
-	}
 	sort.Strings(missing)
-	c.Check(len(missing) == 0, "R18.1", name, "exhaustive", conv.Pos(), "all %d slog.Kind constants of the installed log/slog are handled (%d explicitly, the rest by the fallback); missing %v", len(kinds), len(explicit), missing)
+	c.Check(len(missing) == 0, "R18.1", name, "exhaustive", conv.Pos(), "all %d slog.Kind constants of the installed log/slog were explored (%d have an arm of their own, the rest reach the fallback)", len(kinds), len(explicit))
+	c.Check(len(badGroup) == 0, "R18.3", name, "group-contract", conv.Pos(), "slog.Handler: \"If a group has no Attrs (even if it has a non-empty key), ignore it\" and a group with an empty key is inlined: on every path of kind Group, Skip is returned once the group is known to be empty, and Inline(group) / Object(key, group) are returned only after it was established non-empty and its key tested: %v", lim(badGroup))
 
 	// ---------------- R18.2 ----------------
 	lvf := c.Func(SlogPath, "convertSlogLevel")
@@ -220,89 +352,220 @@ func checkC18(c *Ctx) {
 		ok := false
 		for _, r := range Returns(wg) {
 			atoms := AtomStrings(Guards(r))
-			if len(atoms) == 1 && atoms[0] == `group == ""` {
+			if len(atoms) == 1 && (atoms[0] == wg.Params[1].Name()+` == ""` || atoms[0] == "len("+wg.Params[1].Name()+") == 0") {
 				ok = Strip(RetVals(r)[0]) == ssa.Value(wg.Params[0])
 			}
 		}
 		c.Check(ok, "R18.3", wg.String(), "empty-name-returns-receiver", wg.Pos(), "slog.Handler: \"If the name is empty, WithGroup returns the receiver\"")
 	}
-	{
-		emptyGroup, inline := false, false
-		for _, r := range Returns(conv) {
-			call, _ := Strip(RetVals(r)[0]).(*ssa.Call)
-			if call == nil {
-				continue
-			}
-			atoms := AtomStrings(Guards(r))
-			isGroup := false
-			has := map[string]bool{}
-			for _, a := range atoms {
-				if m := reKindAtom.FindStringSubmatch(a); m != nil {
-					n, _ := parseInt(m[1])
-					isGroup = kinds[n] == "KindGroup"
-				}
-				has[a] = true
-			}
-			if !isGroup {
-				continue
-			}
-			if IsCallTo(call, "go.uber.org/zap.Skip") && has["len(Group(attr.Value)) == 0"] {
-				emptyGroup = true
-			}
-			if IsCallTo(call, "go.uber.org/zap.Inline") && has[`attr.Key == ""`] {
-				inline = true
-			}
-			if IsCallTo(call, "go.uber.org/zap.Object") && !(has[`attr.Key != ""`] && has["len(Group(attr.Value)) > 0"]) {
-				emptyGroup = false
-			}
-		}
-		c.Check(emptyGroup, "R18.3", name, "empty-group-omitted", conv.Pos(), "slog.Handler: \"If a group has no Attrs (even if it has a non-empty key), ignore it\": the KindGroup arm returns Skip when len(Group()) == 0 and builds an object only otherwise")
-		c.Check(inline, "R18.3", name, "empty-key-inlined", conv.Pos(), "slog.Handler: a group with an empty key is inlined")
-	}
-
 	// ---------------- R18.4 ----------------
 	hd := c.Method(SlogPath, "Handler", "Handle")
 	wa := c.Method(SlogPath, "Handler", "WithAttrs")
 	if c.Anchor("R18.4", "zapslog.Handler.Handle/WithAttrs", hd != nil && wa != nil) {
-		he := c18Emission(hd)
-		we := c18Emission(wa)
-		for _, x := range []struct {
-			fn *ssa.Function
-			e  *c18Emit
-		}{{hd, he}, {wa, we}} {
-			n := x.fn.String()
-			if x.e == nil {
-				c.Bad("R18.4", n, "emit-guard", x.fn.Pos(), "no call to appendGroups found")
+		// emitters: helpers that append one Namespace field per pending group
+		emitters := map[*ssa.Function]bool{}
+		c.EachRootFunc(func(f *ssa.Function) {
+			if f.Pkg == nil || f.Pkg.Pkg.Path() != SlogPath || f == hd || f == wa || f.Parent() != nil {
+				return
+			}
+			for _, cl := range Calls(f) {
+				if IsCallTo(cl, "go.uber.org/zap.Namespace") {
+					emitters[f] = true
+				}
+			}
+		})
+		for f := range emitters {
+			var ns *ssa.Call
+			for _, cl := range Calls(f) {
+				if IsCallTo(cl, "go.uber.org/zap.Namespace") {
+					ns, _ = cl.(*ssa.Call)
+				}
+			}
+			ok, over, why := LoopVisitsAll(f, ns)
+			c.Check(ok && strings.HasSuffix(over, ".groups"), "R18.4", f.String(), "emits-every-group", f.Pos(), "the emitter appends one Namespace field for every pending group, in order, no early exit (ranges over %s%s)", over, why)
+		}
+		for _, fn := range []*ssa.Function{hd, wa} {
+			recv := fn.Params[0]
+			rn := recv.Name()
+			cut := 0
+			seqs, trunc := ConcPaths(fn, ConcCfg{
+				MaxIter: 3, IterClosures: true, Cut: &cut, MaxStates: 400000,
+				Inline: func(h *ssa.Function) bool { return !emitters[h] && h.Name() != "convertAttrToField" },
+				Event: func(in ssa.Instruction, st *ConcState) string {
+					switch x := in.(type) {
+					case *ssa.Call:
+						if f := StaticCallee(x); f != nil && emitters[f] {
+							return "emit"
+						}
+						switch {
+						case IsCallTo(x, SlogPath+".convertAttrToField"):
+							return "attr"
+						case IsCallTo(x, "go.uber.org/zap.Namespace"):
+							return "ns"
+						case IsCallTo(x, "(go.uber.org/zap/zapcore.Core).With"):
+							return "with"
+						case IsCallTo(x, "(*go.uber.org/zap/zapcore.CheckedEntry).Write"):
+							return "write"
+						case CallBuiltin(x) == "append":
+							if sl, ok := types.Unalias(x.Type()).Underlying().(*types.Slice); ok && strings.HasSuffix(sl.Elem().String(), "zapcore.Field") {
+								return "add"
+							}
+						}
+					case *ssa.Store:
+						if fa, ok := x.Addr.(*ssa.FieldAddr); ok && fieldName(fa.X.Type(), fa.Field) == "groups" {
+							base := Strip(fa.X)
+							for k := 0; k < 6; k++ {
+								if nx := st.Step(base); nx != nil {
+									base = Strip(nx)
+								}
+							}
+							if Root(base) == ssa.Value(recv) {
+								return "store-receiver-groups"
+							}
+							if n, known := st.IsNil(x.Val); known && n {
+								return "clear"
+							}
+							return "set-groups"
+						}
+					}
+					return ""
+				},
+				Branch: func(cond ssa.Value, taken bool, st *ConcState) string {
+					pol := taken
+					for k := 0; k < 8; k++ {
+						if u, ok := cond.(*ssa.UnOp); ok && u.Op == token.NOT {
+							cond, pol = u.X, !pol
+							continue
+						}
+						if nx := st.Step(cond); nx != nil {
+							cond = nx
+							continue
+						}
+						break
+					}
+					tf := func(n string, v bool) string {
+						if v {
+							return n + "=T"
+						}
+						return n + "=F"
+					}
+					bo, ok := cond.(*ssa.BinOp)
+					if !ok {
+						return ""
+					}
+					isConv := func(v ssa.Value) bool {
+						v = Strip(v)
+						for k := 0; k < 8; k++ {
+							if cl, ok := v.(*ssa.Call); ok && IsCallTo(cl, SlogPath+".convertAttrToField") {
+								return true
+							}
+							nx := st.Step(v)
+							if nx == nil {
+								return false
+							}
+							v = Strip(nx)
+						}
+						return false
+					}
+					isSkip := func(v ssa.Value) bool {
+						cl, ok := Strip(v).(*ssa.Call)
+						return ok && IsCallTo(cl, "go.uber.org/zap.Skip")
+					}
+					if (isConv(bo.X) && isSkip(bo.Y) || isConv(bo.Y) && isSkip(bo.X)) && (bo.Op == token.NEQ || bo.Op == token.EQL) {
+						return tf("real", pol == (bo.Op == token.NEQ))
+					}
+					x, y, op := st.Desc(bo.X), st.Desc(bo.Y), bo.Op
+					if y == "len("+rn+".groups)" && x == "0" {
+						x, y, op = y, x, swapOp(op)
+					}
+					if x == "len("+rn+".groups)" && y == "0" {
+						switch op {
+						case token.GTR, token.NEQ:
+							return tf("pending", pol)
+						case token.EQL, token.LEQ:
+							return tf("pending", !pol)
+						}
+					}
+					return ""
+				},
+			})
+			n := fn.String()
+			if trunc || len(seqs) == 0 {
+				c.Und("R18.4", n, "emission-protocol", fn.Pos(), "path exploration incomplete (%d sequences, truncated=%v)", len(seqs), trunc)
 				continue
 			}
-			c.Check(x.e.problem == "", "R18.4", n, "emit-guard", x.e.call.Pos(), "pending groups are emitted under exactly: not yet emitted ∧ field ≠ Skip (∧ groups pending): %s (guards %v)", x.e.problem, x.e.atoms)
-			c.Check(x.e.once == "", "R18.4", n, "emitted-once", x.e.call.Pos(), "the emitted-state flag is initialised to 'pending', flips on the emitting path and nowhere else, so the groups are emitted exactly once, before the first real field: %s", x.e.once)
-		}
-		if he != nil && we != nil {
-			c.Check(he.problem == "" && we.problem == "" && he.hasSkip == we.hasSkip, "R18.4", SlogPath+".Handler", "siblings-agree", token.NoPos, "Handle and WithAttrs use the same emission condition (%v / %v)", he.atoms, we.atoms)
-		}
-		// WithAttrs clears groups iff emitted
-		cleared := false
-		if we != nil {
-			AllInstrs(wa, func(i ssa.Instruction) {
-				st, ok := i.(*ssa.Store)
-				if !ok {
-					return
-				}
-				fa, ok := st.Addr.(*ssa.FieldAddr)
-				if !ok || fieldName(fa.X.Type(), fa.Field) != "groups" || !c18FreshCopy(fa.X, wa.Params[0], 0) {
-					return
-				}
-				has := false
-				for _, a := range Guards(st) {
-					if we.sameFlag(a.Cond) && a.Pol != we.pendingPol {
-						has = true
+			var bad []string
+			nEmit := 0
+			for _, sq := range seqs {
+				ev := strings.Split(sq, " ; ")
+				emitted, inAttr, emitThis, addedThis := false, false, false, false
+				facts := map[string]bool{}
+				cleared := false
+				why := ""
+				flush := func() {
+					// end of one attribute's step
+					if inAttr && !emitThis && !emitted && facts["pending=T"] && facts["real=T"] {
+						why = "a real field is added while groups are pending and not yet emitted"
+					}
+					if inAttr && !emitThis && !emitted && !(facts["pending=F"] || facts["real=F"]) {
+						why = "a field is added without emitting although neither 'no groups pending' nor 'field is Skip' was established"
 					}
 				}
-				cleared = has && IsNilConst(Strip(st.Val))
-			})
+				for _, e := range ev {
+					switch e {
+					case "attr":
+						flush()
+						inAttr, emitThis, addedThis = true, false, false
+						facts = map[string]bool{}
+					case "emit", "ns":
+						if e == "ns" && emitThis {
+							continue
+						}
+						nEmit++
+						switch {
+						case !inAttr:
+							why = "groups emitted outside an attribute step"
+						case emitted:
+							why = "groups emitted twice"
+						case addedThis:
+							why = "groups emitted after the field they should precede"
+						case !(facts["real=T"]):
+							why = "groups emitted without having established that the field is not Skip (an empty group would appear)"
+						}
+						emitThis, emitted = true, true
+					case "add":
+						if inAttr {
+							addedThis = true
+						}
+					case "clear":
+						cleared = true
+					case "store-receiver-groups", "set-groups":
+						why = "the pending groups are overwritten (" + e + ")"
+					case "with", "write":
+						flush()
+						inAttr = false
+					default:
+						if inAttr && !addedThis {
+							facts[e] = true
+						}
+					}
+				}
+				flush()
+				if fn == wa && cleared != emitted {
+					why = "the derived handler must drop its pending groups exactly when they were emitted into the core"
+				}
+				if fn == hd && cleared {
+					why = "Handle must not clear groups"
+				}
+				if why != "" {
+					bad = append(bad, why+": "+sq)
+				}
+			}
+			if len(bad) > 3 {
+				bad = append(bad[:3], "… "+itoa(len(bad)-3)+" more")
+			}
+			c.Check(len(bad) == 0 && nEmit > 0, "R18.4", n, "emission-protocol", fn.Pos(), "over %d paths (up to 3 attributes, helpers and the attribute callback explored inline; %d longer paths cut): the pending groups are emitted exactly once, immediately before the first field that is not Skip, only when groups are pending, never otherwise; %s: %v", len(seqs), cut, map[bool]string{true: "WithAttrs clears the clone's groups exactly when it emitted them", false: "Handle leaves the handler's groups untouched"}[fn == wa], bad)
 		}
-		c.Check(cleared, "R18.4", wa.String(), "cleared-iff-emitted", wa.Pos(), "the derived handler drops its pending groups exactly when they were emitted into the core")
 	}
 
 	// ---------------- R18.5 ----------------
@@ -612,4 +875,41 @@ func c18FreshCopy(v ssa.Value, h ssa.Value, depth int) bool {
 		return len(rets) > 0
 	}
 	return false
+}
+
+
+// structValueFields renders the fields of a struct VALUE v that is the load of a local struct variable: a whole copy
+// (from a parameter or another variable) gives "<src>.f", a store to a field overrides it.
+func structValueFields(v ssa.Value) map[string]string {
+	out := map[string]string{}
+	ld, ok := Strip(v).(*ssa.UnOp)
+	if !ok || ld.Op != token.MUL {
+		return out
+	}
+	a, ok := ld.X.(*ssa.Alloc)
+	if !ok || a.Referrers() == nil {
+		return out
+	}
+	st, ok := types.Unalias(deref(a.Type())).Underlying().(*types.Struct)
+	if !ok {
+		return out
+	}
+	for _, r := range *a.Referrers() {
+		if s, ok := r.(*ssa.Store); ok && s.Addr == ssa.Value(a) {
+			base := Desc(s.Val)
+			for k := 0; k < st.NumFields(); k++ {
+				out[st.Field(k).Name()] = base + "." + st.Field(k).Name()
+			}
+		}
+	}
+	for _, r := range *a.Referrers() {
+		if fa, ok := r.(*ssa.FieldAddr); ok && fa.Referrers() != nil {
+			for _, r2 := range *fa.Referrers() {
+				if s, ok := r2.(*ssa.Store); ok && s.Addr == ssa.Value(fa) {
+					out[st.Field(fa.Field).Name()] = Desc(s.Val)
+				}
+			}
+		}
+	}
+	return out
 }
